@@ -16,7 +16,7 @@ def ask(requests, chunk=400):
         inp = '\n'.join(sx.dumps(r) for r in part) + '\n'
         # the extracted code is not tail recursive everywhere: give it a large stack
         p = subprocess.run(['/bin/sh', '-c', 'ulimit -s unlimited 2>/dev/null; exec "%s"' % DRIVER],
-                           input=inp, capture_output=True, text=True)
+                           input=inp, capture_output=True, text=True, timeout=600)
         lines = p.stdout.split('\n')
         if lines and lines[-1] == '':
             lines.pop()
